@@ -133,6 +133,12 @@ type Options struct {
 	Shard    int       // this worker's index
 	NShards  int       // number of workers (0/1: no sharding)
 	CutDepth int       // depth at which the tree is cut into shard prefixes
+	// ShardLevels > 0 selects deviation-level sharding instead: the tree is cut
+	// below the all-default execution into the subtrees rooted at its
+	// single-deviation children (recursively ShardLevels times). With deviation
+	// bounding nearly the whole tree hangs below the default prefix, so depth
+	// cuts balance badly; these subtrees are many and small.
+	ShardLevels int
 	MaxViol  int       // stop after this many distinct violation signatures (default 20)
 	Samples  int       // number of sample executions to keep (default 4)
 	OnExec   func(vector []int) // called before every execution (crash isolation)
@@ -259,7 +265,59 @@ func Explore(body Body, opt Options) (st *Stats) {
 
 	// Enumerate the frontier at CutDepth; shard by index.
 	var roots [][]int
-	if opt.NShards > 1 && opt.CutDepth > 0 {
+	leafOnly := map[int]bool{} // index into roots: run only this one execution
+	if opt.NShards > 1 && opt.ShardLevels > 0 {
+		type job struct {
+			prefix []int
+			leaf   bool
+		}
+		jobs := []job{{prefix: []int{}}}
+		for l := 0; l < opt.ShardLevels; l++ {
+			var nextJobs []job
+			for _, j := range jobs {
+				if j.leaf {
+					nextJobs = append(nextJobs, j)
+					continue
+				}
+				_, c := r.run(j.prefix, nil, false)
+				pts := append([]Point(nil), c.pts...)
+				nextJobs = append(nextJobs, job{prefix: j.prefix, leaf: true})
+				dev := 0
+				for i, p := range pts {
+					if i >= len(j.prefix) {
+						for alt := 1; alt < p.N; alt++ {
+							if dev+p.Cost > opt.MaxDev {
+								break
+							}
+							v := make([]int, i+1)
+							for k := 0; k < i; k++ {
+								v[k] = pts[k].Choice
+							}
+							v[i] = alt
+							nextJobs = append(nextJobs, job{prefix: v})
+						}
+					}
+					if p.Choice > 0 {
+						dev += p.Cost
+					}
+				}
+				if !opt.Deadline.IsZero() && time.Now().After(opt.Deadline) {
+					st.Exhaustive = false
+					st.CapNote = "deadline hit while enumerating the shard frontier"
+					return st
+				}
+			}
+			jobs = nextJobs
+		}
+		for idx, j := range jobs {
+			if idx%opt.NShards == opt.Shard {
+				if j.leaf {
+					leafOnly[len(roots)] = true
+				}
+				roots = append(roots, j.prefix)
+			}
+		}
+	} else if opt.NShards > 1 && opt.CutDepth > 0 {
 		var vec []int
 		var exp []Point
 		idx := 0
@@ -296,7 +354,7 @@ func Explore(body Body, opt Options) (st *Stats) {
 	}
 
 	n := 0
-	for _, root := range roots {
+	for ri, root := range roots {
 		vec := root
 		if vec == nil {
 			vec = []int{}
@@ -352,6 +410,9 @@ func Explore(body Body, opt Options) (st *Stats) {
 				}
 			}
 			exp = append(exp[:0], c.pts...)
+			if leafOnly[ri] {
+				break
+			}
 			vec = next(c.pts, len(root), -1, opt.MaxDev)
 		}
 	}
